@@ -43,7 +43,7 @@
       nodes are non-zero and increase in document order -- decidable, Model/XDocCheck.v
       [doc_inv_b]; among the generated documents it fails only for those with DTD-default
       attributes, finding D19), every
-      binding list without a default namespace, every tree [a] without the namespace axis
+      binding list [bind], every tree [a] without the namespace axis
       ([xnons a]) and ANY two spellings of [a] (parentheses, abbreviated or unabbreviated steps,
       [//] or [/descendant-or-self::node()/], [n] or [position() = n], white space):
         forall v, query_model doc bind (spell a sp1) = QValue v <->
@@ -59,7 +59,8 @@
       fold of unions may finish its operands early: [uf_app_l], [uf_app_r]); [xeval a] and
       [xeval (norm a)] have the same successful outcomes (Proofs/XPathSpelling.v [xeval_norm]):
       [@], the omitted axis, [.] and [..] by computation, [n] against [position() = n] by
-      unfolding the call of [position()] (needs: no default namespace, see below), [//] by the
+      unfolding the call of [position()] (an unprefixed function name is in no namespace, whatever
+      the bindings: see D63 below), [//] by the
       node-level description of what a list of steps selects (Proofs/XPathReach.v:
       [xstepops_char], [path_char], [NI_equiv]).
       [ex_same_value] / [ex_value] (Proofs/XPathSpellingExamples.v) instantiate it with
@@ -87,24 +88,28 @@
       [.] / [..] expanded, a numeric predicate turned into [position() = n]; the separators [/] and
       [//] stay where they are; a sub-relation of [≈]: [lnorm_equiv]) have EQUAL [query_model]
       results -- same value, same error, same panic -- on EVERY document table and for every axis
-      (no [DocInv], no [xnons]), provided the bindings have no default namespace; and
+      (no [DocInv], no [xnons]) and for every binding list; and
       [white_space_irrelevant]: white space and the quote of a literal never matter (no hypothesis
       at all).  Underneath: [xeval_lnorm], the two evaluations are the same state-and-result
       computation (same context afterwards, too).  So the hypotheses [DocInv] and [xnons] of
       [spelling_irrelevant_partial] serve the equivalence [//] = [/descendant-or-self::node()/] only.
 
     WHAT THE EVALUATION HALF DOES NOT SAY.  The full statement above is FALSE for the model, and for
-    the code (both witnesses were run on the real [query] with work/xp/q.py), in two respects:
+    the code (the witness was run on the real [query] with work/xp/q.py), in one respect:
     - [error_order_refuted]: when both spellings fail they may fail with DIFFERENT errors: [//x/y]
       runs the whole relative path from one start node after the other,
       [/descendant-or-self::node()/x/y] runs step [x] from all of them before step [y], so a failing
       predicate of [y] and a failing predicate of [x] are met in different orders (both results are
       errors, only the error differs).  This is why [spelling_irrelevant_partial] speaks of values;
-    - [default_namespace_refuted]: a default-namespace binding in the context
-      ([Context::add_ns(None, ..)], an extension: XPath 1.0 has no default namespace in the
-      expression context) makes every unprefixed function name unknown, so [/*/*[position() = 1]] is
-      the error NotFoundFunction(position) where [/*/*[1]] has a value: hypothesis
-      [ns_lookup bind None = None] (C05 has the same one).
+    A second difference was found with these proofs and has been REPAIRED (D63, repaired in
+    9d405ca): a default-namespace binding in the context ([Context::add_ns(None, ..)], an extension:
+    XPath 1.0 has no default namespace in the expression context) made every unprefixed function
+    name unknown, because [eval_func_expr] expanded it like an element name; [/*/*[position() = 1]]
+    was the error NotFoundFunction(position) where [/*/*[1]] had a value.  Model/XPathEval.v
+    [fn_key] mirrors the repaired code; the hypothesis [ns_lookup bind None = None] that all the
+    theorems of the evaluation half carried is gone, the former witness is now the instance
+    [ex_default_namespace_same] of [spelling_irrelevant_light].  (A default binding still applies
+    to NAME TESTS, in both spellings alike.)
     Not covered, without a known counterexample (for [//] only; [spelling_irrelevant_light] covers
     every table for all the other equivalences): tables that satisfy neither [DocInv] (with a tree
     free of the namespace axis) nor [DocOrd].
@@ -256,7 +261,7 @@ Proof. exact XPathAbsEval.eval_abs. Qed.
 Theorem spelling_irrelevant_partial : forall doc bind a sp1 sp2,
   ok_spelling a sp1 -> ok_spelling a sp2 ->
   no_fname_case (surface sp1) = true -> no_fname_case (surface sp2) = true ->
-  XPathCanon.DocInv doc -> XPathEval.ns_lookup bind None = None -> XPathAbsInv.xnons a = true ->
+  XPathCanon.DocInv doc -> XPathAbsInv.xnons a = true ->
   forall v, XPathSpellingMain.query_model doc bind (spell a sp1) = XPathSpellingMain.QValue v <->
             XPathSpellingMain.query_model doc bind (spell a sp2) = XPathSpellingMain.QValue v.
 Proof. exact XPathSpellingMain.spelling_irrelevant_ok_proof. Qed.
@@ -264,7 +269,7 @@ Proof. exact XPathSpellingMain.spelling_irrelevant_ok_proof. Qed.
 Corollary spelling_irrelevant_fails : forall doc bind a sp1 sp2,
   ok_spelling a sp1 -> ok_spelling a sp2 ->
   no_fname_case (surface sp1) = true -> no_fname_case (surface sp2) = true ->
-  XPathCanon.DocInv doc -> XPathEval.ns_lookup bind None = None -> XPathAbsInv.xnons a = true ->
+  XPathCanon.DocInv doc -> XPathAbsInv.xnons a = true ->
   ((forall v, XPathSpellingMain.query_model doc bind (spell a sp1) <> XPathSpellingMain.QValue v) <->
    (forall v, XPathSpellingMain.query_model doc bind (spell a sp2) <> XPathSpellingMain.QValue v)).
 Proof. exact XPathSpellingMain.spelling_irrelevant_fails_proof. Qed.
@@ -273,7 +278,7 @@ Proof. exact XPathSpellingMain.spelling_irrelevant_fails_proof. Qed.
 Theorem spelling_irrelevant_ord_partial : forall doc bind a sp1 sp2,
   ok_spelling a sp1 -> ok_spelling a sp2 ->
   no_fname_case (surface sp1) = true -> no_fname_case (surface sp2) = true ->
-  XPathSpellingOrd.DocOrd doc -> XPathEval.ns_lookup bind None = None ->
+  XPathSpellingOrd.DocOrd doc ->
   forall v, XPathSpellingMain.query_model doc bind (spell a sp1) = XPathSpellingMain.QValue v <->
             XPathSpellingMain.query_model doc bind (spell a sp2) = XPathSpellingMain.QValue v.
 Proof. exact XPathSpellingMain.spelling_irrelevant_ord_proof. Qed.
@@ -285,7 +290,7 @@ Corollary spelling_irrelevant_ord_context_partial : forall doc a sp1 sp2 e1 e2 c
   ok_spelling a sp1 -> ok_spelling a sp2 ->
   no_fname_case (surface sp1) = true -> no_fname_case (surface sp2) = true ->
   parse_expr (spell a sp1) = POk e1 [] -> parse_expr (spell a sp2) = POk e2 [] ->
-  XPathSpellingOrd.DocOrd doc -> XPathEval.ns_lookup (XPathEval.c_ns c) None = None ->
+  XPathSpellingOrd.DocOrd doc ->
   forall v c', XPathEval.query doc e1 c = (XDoc.Ok v, c') <-> XPathEval.query doc e2 c = (XDoc.Ok v, c').
 Proof. exact XPathSpellingMain.spelling_irrelevant_ord_context_proof. Qed.
 
@@ -294,7 +299,7 @@ Corollary spelling_irrelevant_context_partial : forall doc a sp1 sp2 e1 e2 c,
   ok_spelling a sp1 -> ok_spelling a sp2 ->
   no_fname_case (surface sp1) = true -> no_fname_case (surface sp2) = true ->
   parse_expr (spell a sp1) = POk e1 [] -> parse_expr (spell a sp2) = POk e2 [] ->
-  XPathCanon.DocInv doc -> XPathEval.ns_lookup (XPathEval.c_ns c) None = None -> XPathAbsInv.xnons a = true ->
+  XPathCanon.DocInv doc -> XPathAbsInv.xnons a = true ->
   forall v c', XPathEval.query doc e1 c = (XDoc.Ok v, c') <-> XPathEval.query doc e2 c = (XDoc.Ok v, c').
 Proof. exact XPathSpellingMain.spelling_irrelevant_context_proof. Qed.
 
@@ -310,7 +315,6 @@ Theorem spelling_irrelevant_light : forall doc bind a sp1 sp2,
   ok_spelling a sp1 -> ok_spelling a sp2 ->
   no_fname_case (surface sp1) = true -> no_fname_case (surface sp2) = true ->
   XPathSpellingLight.lnorm (surface sp1) = XPathSpellingLight.lnorm (surface sp2) ->
-  XPathEval.ns_lookup bind None = None ->
   XPathSpellingMain.query_model doc bind (spell a sp1) = XPathSpellingMain.query_model doc bind (spell a sp2).
 Proof. exact XPathSpellingMain.spelling_irrelevant_light_proof. Qed.
 
@@ -319,7 +323,6 @@ Corollary spelling_irrelevant_light_context : forall doc a sp1 sp2 e1 e2 c,
   no_fname_case (surface sp1) = true -> no_fname_case (surface sp2) = true ->
   parse_expr (spell a sp1) = POk e1 [] -> parse_expr (spell a sp2) = POk e2 [] ->
   XPathSpellingLight.lnorm (surface sp1) = XPathSpellingLight.lnorm (surface sp2) ->
-  XPathEval.ns_lookup (XPathEval.c_ns c) None = None ->
   XPathEval.query doc e1 c = XPathEval.query doc e2 c.
 Proof. exact XPathSpellingMain.spelling_irrelevant_light_context_proof. Qed.
 
@@ -332,19 +335,15 @@ Proof. exact XPathSpellingLight.lnorm_equiv. Qed.
 Theorem error_order_refuted : exists doc bind a sp1 sp2,
   ok_spelling a sp1 /\ ok_spelling a sp2 /\
   no_fname_case (surface sp1) = true /\ no_fname_case (surface sp2) = true /\
-  XPathCanon.DocInv doc /\ XPathEval.ns_lookup bind None = None /\ XPathAbsInv.xnons a = true /\
+  XPathCanon.DocInv doc /\ XPathAbsInv.xnons a = true /\
   XPathSpellingMain.query_model doc bind (spell a sp1) <> XPathSpellingMain.query_model doc bind (spell a sp2).
 Proof. exact XPathSpellingExamples.error_order_refuted_proof. Qed.
 
-(** without the hypothesis on the bindings: [/*/*[1]] has a value, [/*/*[position() = 1]] is the error
-    NotFoundFunction(position) when the context binds a default namespace (model and implementation) *)
-Theorem default_namespace_refuted : exists doc bind a sp1 sp2 v,
-  ok_spelling a sp1 /\ ok_spelling a sp2 /\
-  no_fname_case (surface sp1) = true /\ no_fname_case (surface sp2) = true /\
-  XPathCanon.DocInv doc /\ XPathAbsInv.xnons a = true /\
-  XPathSpellingMain.query_model doc bind (spell a sp1) = XPathSpellingMain.QValue v /\
-  forall v', XPathSpellingMain.query_model doc bind (spell a sp2) <> XPathSpellingMain.QValue v'.
-Proof. exact XPathSpellingExamples.default_namespace_refuted_proof. Qed.
+(** under a default-namespace binding (an extension of the API) the two spellings [/*/*[1]] and
+    [/*/*[position() = 1]] used to differ (defect D63, repaired in 9d405ca); now an instance of
+    [spelling_irrelevant_light] *)
+Check XPathSpellingExamples.ex_default_namespace.
+Check XPathSpellingExamples.ex_default_namespace_same.
 
 (** the hypotheses are satisfiable by a non-trivial value: a dumped document, two different strings *)
 Check XPathSpellingExamples.ex_hypotheses.
@@ -390,4 +389,3 @@ Print Assumptions lnorm_equiv.
 Print Assumptions spelling_irrelevant_context_partial.
 Print Assumptions spelling_irrelevant_light_context.
 Print Assumptions error_order_refuted.
-Print Assumptions default_namespace_refuted.
